@@ -701,6 +701,9 @@ def gen_c03_spec(rng: random.Random, maxn: int = 40) -> Dict[str, Any]:
                 m["timeout_str"] = True
             if rng.random() < 0.6:
                 m["beh"]["cleanup"] = rng.choice([["y"], [0.05], [0.4], ["y", 0.2]])
+            if m["beh"]["dur"] == ["never"] and rng.random() < 0.4:
+                # the task declares a long timeout (decorator label), this call asks for a short one: the call's own wins
+                m["task"] = "t_decl_to"
             if rng.random() < 0.15:
                 # a label that is not a number: the message fails (error result) without the body ever running
                 m.pop("timeout")
@@ -739,6 +742,8 @@ def gen_c03_spec(rng: random.Random, maxn: int = 40) -> Dict[str, Any]:
         "_probe_toks": probe_toks,
     }
     spec["cfg"]["ack"] = rng.choice(["when_saved", "when_saved", "when_executed", "when_received"])
+    if any(m_.get("task") == "t_decl_to" for m_ in msgs):
+        spec["tasks"] = {"t_decl_to": {"fn": "async", "labels": {"timeout": 600}}}
     if spec["backend"]["lat"] == 0.3:
         spec["cfg"]["W"] = None  # (a slow store: every message is being processed until its result is written)
     if fail and rng.random() < 0.5:
@@ -768,7 +773,7 @@ def gen_c03_spec(rng: random.Random, maxn: int = 40) -> Dict[str, Any]:
         # the saturation probe's tasks have a slow dependency: A messages must be able to resolve dependencies at once
         # (slow enough for every slot to have been freed by the earlier messages while the first probe still resolves)
         spec["deps"] = {"dslow": {"style": rng.choice(["plain_async", "agen", "acm"]), "lat": 60.0, "subs": []}}
-        spec["tasks"] = {"t_probe_dep": {"fn": "async", "deps": ["dslow"]}}
+        spec.setdefault("tasks", {})["t_probe_dep"] = {"fn": "async", "deps": ["dslow"]}
         spec["_probe_dep"] = True
         for m in msgs:
             if (m.get("tok") or "").startswith("p"):
